@@ -3,6 +3,9 @@
 import json, os
 V = os.path.dirname(os.path.abspath(__file__))
 E1 = 'lift'
+E2 = 'emitted'
+E2NOTE = 'Trusted: CBMC 6.11 (C front end + CaDiCaL), the lexical normaliser vlib/okl.py (deletes backend decoration, maps thread-index builtins to harness globals, turns the emitted launch call into a bounded grid loop = the documented launch model), the host compiler for native replay. The translator is the real bin/occa rebuilt from /repo on every run. The program quantifier is enumerated by a generator (stated in evidence); the solver covers all run-time values of each program inside the stated ranges.'
+E2TECH = 'translation validation by bounded model checking (CBMC/SAT): code emitted by the real occa translator vs. the sequential reading of the OKL source on symbolic run-time values; counterexamples replayed natively on the emitted code'
 CLAIMED = {
  'C27': dict(level='model_checking', engine=E1,
    text='CBMC (SAT) decides, over the real hash_t code lifted from clang IR, that fromString(getFullString(h))==h and that getString(h) is the 16-char prefix of getFullString(h) for all 2^256 hash values and 7 object histories (fresh, copied, assigned, re-queried, XOR results); that ==,!=,<,^ are consistent on all pairs; and that occa::hash executes no signed overflow/shift/bounds UB on every byte string up to the bound. Bounded only in the length of hashed byte strings (<=4 quick, <=8 thorough).',
@@ -10,6 +13,14 @@ CLAIMED = {
    technique='bounded model checking (CBMC/SAT) of the real functions lifted from LLVM IR; counterexamples replayed on the g++/ASan/UBSan build',
    design='5/C27'),
 }
+CLAIMED.update({
+ 'C17': dict(level='translation_validation', engine=E2, technique=E2TECH, note=E2NOTE, design='5/C17',
+   text='For every generated @outer/@inner loop header (all four comparisons, both operand orders, ++/--/+=/-= with literal and run-time steps, operand expressions of every precedence class, 1-4 loop levels) the real occa translator is run for Serial, OpenMP, CUDA, HIP, OpenCL, Metal and DPC++, and CBMC decides that the emitted code (kept loops, or launcher dimensions + index reconstruction executed over the whole grid) executes the body for exactly the multiset of iterator values of the sequential loop, for ALL run-time operand values in the stated range, trip counts up to the stated bound.'),
+ 'C18': dict(level='translation_validation', engine=E2, technique=E2TECH, note=E2NOTE, design='5/C18',
+   text='For every generated @tile loop (tile sizes literal and run-time, steps, directions, comparisons, the four attribute forms, check=true/false, nested 2-D tiling) CBMC decides that the code emitted by the real translator visits exactly the iterator values of the untiled loop, each once, for all run-time bounds/steps/tile sizes in the stated ranges (check=false: whenever the trip count is a multiple of the tile size).'),
+ 'C19': dict(level='translation_validation', engine=E2, technique=E2TECH, note=E2NOTE, design='5/C19',
+   text='For @dim arities 1-4, every @dimOrder permutation and index/dimension arguments from every C operator class, CBMC decides that the subscript emitted by the real translator equals the documented mixed-radix formula with every argument evaluated as a complete expression, stays inside [0, prod D) and is injective on in-range index tuples, for all run-time index and dimension values in the stated ranges.'),
+})
 NA = {}
 def load_na():
     na = {}
